@@ -214,6 +214,25 @@ static automata *which_autom(vp_iface *f, const char *w) {
 
 /* ------------------------------------------------------------------ op interpreter */
 
+
+static void rx_alloc(vp_iface *f, uint32_t rxseed) {
+    f->rxcap = f->mtu;
+    if (getenv("VH_GUARD_RX")) {
+        /* guard-page allocator: the buffer ends exactly where 2 MiB of PROT_NONE begin, so an access
+         * that jumps far over a sanitizer red zone still faults */
+        size_t pg = 4096, guard = 2u << 20;
+        size_t body = (f->rxcap + pg - 1) / pg * pg;
+        uint8_t *m = mmap(NULL, body + guard, PROT_READ | PROT_WRITE, MAP_PRIVATE | MAP_ANONYMOUS, -1, 0);
+        if (m == MAP_FAILED) { perror("mmap"); exit(3); }
+        mprotect(m + body, guard, PROT_NONE);
+        f->rxbuf = m + body - f->rxcap;
+    } else {
+        free(f->rxbuf);
+        f->rxbuf = malloc(f->rxcap);
+    }
+    vp_fill_stream(f->rxbuf, f->rxcap, rxseed);   /* defined, seeded initial content */
+}
+
 static void run_line(char *line) {
     char *tok[64];
     int nt = split(line, tok, 64);
@@ -232,21 +251,12 @@ static void run_line(char *line) {
             else iface_kv(f, tok[i], eq + 1);
         }
         if (f->mtu == 0) f->mtu = 1500;
-        f->rxcap = f->mtu;
-        if (getenv("VH_GUARD_RX")) {
-            /* guard-page allocator: the buffer ends exactly where 2 MiB of PROT_NONE begin, so an access
-             * that jumps far over a sanitizer red zone still faults */
-            size_t pg = 4096, guard = 2u << 20;
-            size_t body = (f->rxcap + pg - 1) / pg * pg;
-            uint8_t *m = mmap(NULL, body + guard, PROT_READ | PROT_WRITE, MAP_PRIVATE | MAP_ANONYMOUS, -1, 0);
-            if (m == MAP_FAILED) { perror("mmap"); exit(3); }
-            mprotect(m + body, guard, PROT_NONE);
-            f->rxbuf = m + body - f->rxcap;
-        } else {
-            free(f->rxbuf);
-            f->rxbuf = malloc(f->rxcap);
-        }
-        vp_fill_stream(f->rxbuf, f->rxcap, rxseed);   /* defined, seeded initial content */
+        rx_alloc(f, rxseed);
+    } else if (!strcmp(op, "MTU")) {                     /* MTU i n [rxseed]: the link's MTU changes; the daemon re-sizes its receive buffer */
+        vp_iface *f = ifc_of(tok[1]);
+        f->mtu = strtoul(tok[2], NULL, 0);
+        if (f->mtu == 0) f->mtu = 1500;
+        rx_alloc(f, nt > 3 ? (uint32_t)strtoul(tok[3], NULL, 0) : 7);
     } else if (!strcmp(op, "SET")) {
         vp_iface *f = ifc_of(tok[1]);
         for (int i = 2; i < nt; i++) {
